@@ -367,7 +367,7 @@ def read_headers(sock: socket.socket) -> tuple:
         if not line:
             break
         trace(line)
-        if not status:
+        if status is None:
             status_info = line.split(" ", 2)
             try:
                 status = int(status_info[1])
